@@ -275,6 +275,10 @@ def _margin(attr):
         if bounds is None:
             _glyph_append("contour")(g, k)
             return "appendContour"
+        if attr == "leftMargin" and any(not len(c) for c in g):
+            # (moving a contour without points changes nothing in it: not an effective change of that contour)
+            _bump_width(g, k)
+            return "width="
         variant = None
         if attr == "bottomMargin" and g.verticalOrigin is None:
             variant = "bottomMargin=[no vertical origin]"
@@ -328,6 +332,10 @@ def _glyph_move(g, k):
     if not len(g) and not g.components and not g.anchors:
         _glyph_append("contour")(g, k)
         return "appendContour"
+    if any(not len(c) for c in g):
+        # (moving a contour without points changes nothing in it: not an effective change of that contour)
+        _bump_width(g, k)
+        return "width="
     g.move((1 + k, 2))
 
 
